@@ -121,7 +121,7 @@ Print Assumptions C01_source_layouts_are_documented.
 
 (* (I refines S, at the level of the public API) every session - create a series in an empty directory, then ANY sequence of
    appends (accepted or refused), full and bounded reads, first-n reads, line counts and accessor calls, with any arguments
-   the types admit - run on the model of the library is ACCEPTED BY THE JUDGE, the extracted specification that decides
+   the types allow - run on the model of the library is ACCEPTED BY THE JUDGE, the extracted specification that decides
    whether an observed behaviour satisfies the properties: every answer of the model is in the set the judge allows, after
    every step the files of the model are byte for byte the files the judge expects, and the judge stays determined. On this
    fragment a judge failure on the implementation is therefore a deviation of the code from its model. *)
